@@ -14,7 +14,7 @@ TRUSTED = [
     "tenants' requests removed must give each tenant the same answers",
     "not modelled: TLS, rate limiting (max_qps=0), process-wide Health/Metrics (outside the property), timing",
 ]
-KINDS = {"c10-reserved-key-filter", "c10-unauthenticated-accepted", "c10-reserved-key-shown", "c10-not-found-carries-data", "c10-interference",
+KINDS = {"c10-namespace-mismatch", "c10-reserved-key-filter", "c10-unauthenticated-accepted", "c10-reserved-key-shown", "c10-not-found-carries-data", "c10-interference",
          "c10-search-interference", "c10-flush-count", "c10-usage-interference", "harness"}
 
 
